@@ -26,13 +26,13 @@ def A(arm, quick, thorough, **kw):
     return d
 
 PROPS = {
-    "C01": {"level": "exploration", "arms": [A("seq-large", 15000, 600000), A("seq-free", 60000, 3000000, boost=3), A("seq-depthfree", 20000, 600000, boost=3)],
+    "C01": {"level": "exploration", "arms": [A("seq-large", 15000, 600000), A("seq-free", 60000, 3000000, boost=3), A("seq-depthfree", 20000, 600000, boost=3), A("seq-longarc", 6000, 100000)],
             "probes": ["branched(explored>=2)", "infeasible_instance", "negative_optimum", "fault:width_jitter", "fault:rub_slack", "fault:cache_lossy_fired", "fault:dominance_weak_fired", "mon_merge_calls"],
             "rule": RULE_SOLVER},
     "C02": {"level": "exploration", "arms": [A("seq-large", 8000, 300000), A("seq-free", 40000, 1500000), A("par-free", 30000, 1200000), A("par-cutoff", 30000, 1200000), A("seq-sweep", 4000, 150000)],
             "probes": ["branched(explored>=2)", "fault:cutoff_fired", "probe:>=2_workers_compiling_at_once", "infeasible_instance"],
             "rule": RULE_SOLVER},
-    "C03": {"level": "exploration", "arms": [A("par-large", 2000, 150000), A("par-free", 40000, 2500000), A("par-free-wide", 8000, 400000), A("par-preempt-sweep", 600, 40000)],
+    "C03": {"level": "exploration", "arms": [A("par-large", 2000, 150000), A("par-free", 40000, 2500000), A("par-free-wide", 8000, 400000), A("par-preempt-sweep", 600, 40000), A("par-longarc", 8000, 60000)],
             "probes": ["probe:>=2_workers_compiling_at_once", "probe:worker_parked_and_woken", "probe:multi_wake", "probe:pruned_by_cache_at_pop", "probe:read_threshold_written_by_peer", "fringe_clears", "fault:preemptions"],
             "rule": RULE_SOLVER},
     "C04": {"level": "exploration", "arms": [A("par-free", 30000, 1500000), A("par-cutoff", 40000, 2000000), A("par-flaky", 20000, 800000), A("par-threads", 20000, 800000), A("par-threads-cutoff", 20000, 800000), A("par-preempt-sweep-cutoff", 600, 30000), A("par-sweep", 1000, 50000), A("ext:miri-solver", 0, 320, reps=6)],
